@@ -52,6 +52,14 @@ impl Matcher {
         if INDICES {
             matrix.reconstruct_optimal_path(match_end as u16, indices, matrix_len, start as u32);
         }
+        #[cfg(nucleo_verif)]
+        if INDICES {
+            crate::verif::record_matrix(
+                matrix.row_offs,
+                &matrix.current_row[relative_last_row_off..],
+                &matrix.matrix_cells[..matrix_len],
+            );
+        }
         Some(match_score_cell.score)
     }
 }
